@@ -340,6 +340,20 @@ func init() {
 				scs = append(scs, scen{[]int{name(t[0] + " "), name(t[1] + " "), name(t[2] + " ")}, 1})
 			}
 		}
+		// scenarios with four or more actor threads (two of the two-thread actors E, X, V) get one preemption less
+		for i := range scs {
+			threads := 0
+			for _, k := range scs[i].idx {
+				threads++
+				switch actors[k].name[0] {
+				case 'E', 'X', 'V':
+					threads++
+				}
+			}
+			if threads >= 4 && len(scs[i].idx) == 2 {
+				scs[i].bound--
+			}
+		}
 		outs := e3Shards(c, len(scs), func(i int, col *shardCollector) *shardOut {
 			sc := scs[i]
 			var as []c16Actor
@@ -372,7 +386,7 @@ func init() {
 			}
 			st := ex.Explore()
 			out.Executions, out.Transitions, out.MaxPoints, out.Exhaustive = st.Executions, st.Transitions, st.MaxPoints, st.Exhaustive
-			out.Extra["racy_selects"], out.Extra["racy_diverged"] = st.RacySelects, st.RacyDiverged
+			out.Extra["racy_selects"], out.Extra["racy_diverged"], out.Extra["owned_select_choices"] = st.RacySelects, st.RacyDiverged, st.Picks
 			for k, v := range st.PerBound {
 				out.PerBound[fmt.Sprint(k)] = v
 			}
